@@ -333,7 +333,9 @@ def range_(*a):
         return SymRange(0, a[0])
     if len(a) == 2:
         return SymRange(a[0], a[1])
-    raise Unsupported("range() with a step and symbolic bounds")
+    if len(a) == 3 and isinstance(a[2], int) and a[2] >= 1:
+        return SymRange(a[0], a[1], a[2])
+    raise Unsupported("range() with a symbolic or non-positive step")
 
 
 def list_(x=()):
@@ -391,7 +393,16 @@ def abs_(x):
     return _b.abs(x)
 
 
+def _real_types(T):
+    """the globals of an extracted function bind str/int/float/list to proxy-aware functions: map them back to the types"""
+    back = {"str_": str, "int_": int, "float_": float, "list_": list}
+    ts = T if isinstance(T, tuple) else (T,)
+    out = tuple(back.get(getattr(t, "__name__", ""), t) if not isinstance(t, type) else t for t in ts)
+    return out if isinstance(T, tuple) else out[0]
+
+
 def isinstance_(x, T):
+    T = _real_types(T)
     if isinstance(x, Sym):
         ts = T if isinstance(T, tuple) else (T,)
         s = x.t.sort()
